@@ -111,7 +111,7 @@ func mergeMappings(mapping map[string]any, other map[string]any, p tree.Path) (m
 	}
 	for k, v := range other {
 		e, ok := mapping[k]
-		if !ok || strings.HasPrefix(k, "x-") {
+		if !ok || (strings.HasPrefix(k, "x-") && !userDefinedKeys(p)) {
 			mapping[k] = v
 			continue
 		}
@@ -310,4 +310,15 @@ func copyMap(m map[string]any) map[string]any {
 
 func override(_ any, other any, _ tree.Path) (any, error) {
 	return other, nil
+}
+
+// userDefinedKeys tells whether the keys of the mapping at this path are names chosen by the user (a service, network, volume,
+// secret or config, the networks and dependencies of a service): one that starts with `x-` is then merged like any other
+func userDefinedKeys(p tree.Path) bool {
+	for _, pattern := range []tree.Path{"services", "networks", "volumes", "secrets", "configs", "services.*.networks", "services.*.depends_on"} {
+		if p.Matches(pattern) {
+			return true
+		}
+	}
+	return false
 }
